@@ -1,5 +1,6 @@
 """Helpers shared by the property modules (drivers + lattice views)."""
 
+import collections
 import random
 import weakref
 
@@ -118,6 +119,26 @@ _views = {}
 _ties = weakref.WeakKeyDictionary()      # lattice -> its context (kept as long as the lattice lives)
 
 
+def previsit(members, sh, attrs):
+    """Read ``attrs`` of every member once, bottom-up, top-down or shuffled (a pure function of the
+    table): lazily computed attributes must not depend on who is asked first.  Returns the mode."""
+    how = hash(sh.key()) % 3
+    visit = list(range(len(members)))
+    if how == 1:
+        visit.reverse()
+    elif how == 2:
+        random.Random(len(members) * 31 + sh.n).shuffle(visit)
+    COL.count(('visited_bottom_up', 'visited_top_down', 'visited_shuffled')[how])
+    if how:
+        try:
+            for k in visit:
+                for a in attrs:
+                    getattr(members[k], a)
+        except Exception:
+            pass
+    return how
+
+
 def tie(lattice, ctx):
     """Driver-side: remember which context a lattice was obtained from."""
     try:
@@ -161,8 +182,59 @@ def drop_views():
     _views.clear()
 
 
+def failing_calls(concepts, ctx, lat, rng, steps=4):
+    """Calls that (are documented to) raise: unknown labels, a custom infimum that is not the bottom,
+    out-of-range indexes, foreign arguments.  A failed call must leave nothing behind; the property's
+    own calls that follow are judged as usual.  Never raises."""
+    objs, props = list(ctx.objects), list(ctx.properties)
+    nope = '\x00 no such label \x00'
+    for _ in range(steps):
+        k = rng.randrange(6 if lat is None else 11)
+        try:
+            with core.monitor_code():       # the answers of these calls are nobody's business
+                if k == 0:
+                    ctx.intension(objs[:1] + [nope])
+                elif k == 1:
+                    ctx.extension([nope] + props[-1:])
+                elif k == 2:
+                    ctx[nope,]
+                elif k == 3:
+                    ctx.neighbors([nope])
+                elif k == 4 and objs:
+                    concepts.lattices.Lattice(ctx, infimum=rng.sample(objs, rng.randint(1, min(len(objs), 3))))
+                elif k == 5 and objs:
+                    concepts.lattices.Lattice(ctx, infimum=(objs[-1],))
+                elif k == 6:
+                    lat[nope,]
+                elif k == 7:
+                    lat[len(lat) + 5]
+                elif k == 8:
+                    lat([nope])
+                elif k == 9:
+                    lat.join([object()])
+                elif k == 10:
+                    list(lat.upset_union([None]))
+        except core.CaseTimeout:
+            raise
+        except BaseException:
+            COL.counters['failing_calls_raised'] += 1
+    COL.counters['failing_calls'] += steps
+
+
 def get_lattice(ctx):
-    """``ctx.lattice`` (tied to ``ctx``) or RAISED."""
+    """``ctx.lattice`` (tied to ``ctx``) or RAISED.  For one context in three the first access comes
+    after a few calls that fail (see ``failing_calls``)."""
+    if 'lattice' not in vars(ctx):
+        import random
+        import sys
+        import zlib
+        try:
+            key = zlib.crc32(repr((ctx.shape, ctx.objects[:2], ctx.properties[:2], ctx.bools[:2])).encode())
+        except Exception:
+            key = 1
+        if key % 3 == 0:
+            failing_calls(sys.modules[type(ctx).__module__.split('.')[0]], ctx, None, random.Random(key))
+            COL.counters['first_lattice_access_after_failed_calls'] += 1
     lat = call(lambda: ctx.lattice)
     if lat is not RAISED:
         tie(lat, ctx)
@@ -195,10 +267,34 @@ def with_arg(args, kwargs, pos, name, value):
     return args, kwargs
 
 
+INTENDED = {}     # id(container) -> (container, items the driver put in; it never edits them)
+
+
+def declare(container):
+    """The driver passes ``container`` to several calls and never edits it in between: every one of
+    those calls is judged against the items it had when it was declared."""
+    INTENDED[id(container)] = (container, list(container))
+    return container
+
+
+def undeclare(container):
+    INTENDED.pop(id(container), None)
+
+
 def read_iterable(args, kwargs, pos, name):
     """Return (items or None, args, kwargs): a one-shot iterator argument is read
     once and replaced by a fresh one-shot iterator over the same items."""
     arg = get_arg(args, kwargs, pos, name)
+    ent = INTENDED.get(id(arg))
+    if ent is not None and ent[0] is arg:
+        COL.count('declared_collection_arguments')
+        try:
+            now = list(arg)
+            if sorted(map(id, now)) != sorted(map(id, ent[1])):
+                COL.count('declared_collection_found_edited_by_an_earlier_call')
+        except Exception:
+            pass
+        return list(ent[1]), args, kwargs
     try:
         it = iter(arg)
     except TypeError:
@@ -330,6 +426,9 @@ def argform(labels, rng, iterable_ok=True):
     return iter(labels + labels[-1:])
 
 
+KEEP = collections.deque(maxlen=6)     # objects made by interference steps stay alive for a while
+
+
 def interference(concepts, ctx, lat, rng, steps=20):
     """Random calls over the public API (results ignored here: the attached monitors judge the ones
     they own).  Never raises."""
@@ -341,7 +440,12 @@ def interference(concepts, ctx, lat, rng, steps=20):
                 members = list(lat)
             sub_o = rng.sample(objs, rng.randint(0, min(len(objs), 4)))
             sub_p = rng.sample(props, rng.randint(0, min(len(props), 4)))
-            k = rng.randrange(24 if members else 9)
+            k = rng.randrange(28 if members else 10)
+            if k == 9:
+                failing_calls(concepts, ctx, lat if members else None, rng, 1)
+                continue
+            if k == 27:
+                k = 9
             if k == 0:
                 ctx.intension(argform(sub_o, rng))
             elif k == 1:
@@ -360,6 +464,17 @@ def interference(concepts, ctx, lat, rng, steps=20):
                 ctx.tostring(rng.choice(['table', 'cxt', 'csv'])), ctx.crc32(), ctx.shape, ctx.fill_ratio
             elif k == 8:
                 ctx.definition(), ctx == ctx.copy()
+            elif k == 24:      # another lattice over the very same context object
+                KEEP.append(concepts.lattices.Lattice(ctx))
+                list(KEEP[-1])
+            elif k == 25:
+                import copy
+                KEEP.append(copy.copy(lat))
+                KEEP[-1][0], KEEP[-1].supremum
+            elif k == 26:
+                import copy
+                KEEP.append(copy.deepcopy(rng.choice(members)))
+                KEEP[-1].lattice, KEEP[-1].upper_neighbors
             elif k == 9:
                 lat(argform(sub_p, rng))
             elif k == 10 and (sub_o or sub_p):
